@@ -55,6 +55,7 @@ import AnthemModel.Proofs.ExternalSemSpec
 import AnthemModel.Proofs.ExternalSemPh
 import AnthemModel.Proofs.ExternalOutlineTask
 import AnthemModel.Proofs.PrivateUnique
+import AnthemModel.Proofs.RenameFresh
 namespace Anthem.C02
 open Asp
 
@@ -65,8 +66,8 @@ open Asp
 def ProducesR (t : ExternalTask) (J : Interp) : Prop :=
   Stable (t.program.substSym (phNu t.phMap J.fc)) t.userGuide.inputs
     (restrictTo (ext t.program.preds t.userGuide.inputs)
-      (renamedInterp (t.specPrivate.filter (· ∈ t.progPrivate)) J.pred)) J.fc ∧
-  OutputsEmpty t t.program (renamedInterp (t.specPrivate.filter (· ∈ t.progPrivate)) J.pred)
+      (renamedInterp t.clashMap J.pred)) J.fc ∧
+  OutputsEmpty t t.program (renamedInterp t.clashMap J.pred)
 
 /-- the same for a specification program `PL` -/
 def ProducesL (t : ExternalTask) (PL : Program) (J : Interp) : Prop :=
@@ -190,11 +191,11 @@ theorem cannot_produce_public_part (t : ExternalTask) (fuel : Nat) (ΓR : Theory
     (hR : theoryTranslate t [] fuel t.program = .ok ΓR) (J : Interp) (ρ : Asg)
     (hpriv : ∀ a ∈ rightSide t ΓR, a.role = .assumption → sat J a.formula ρ) :
     (¬ Stable t.program t.userGuide.inputs (restrictTo (ext t.program.preds t.userGuide.inputs)
-        (renamedInterp (t.specPrivate.filter (· ∈ t.progPrivate)) J.pred)) J.fc) ↔
+        (renamedInterp t.clashMap J.pred)) J.fc) ↔
       ¬ ∃ T' : PredI, Stable t.program t.userGuide.inputs T' J.fc ∧
         ∀ (q : String) (ds : List Dom), (⟨q, ds.length⟩ : Pred) ∉ t.progPrivate →
           (T' q ds ↔ restrictTo (ext t.program.preds t.userGuide.inputs)
-            (renamedInterp (t.specPrivate.filter (· ∈ t.progPrivate)) J.pred) q ds) := by
+            (renamedInterp t.clashMap J.pred) q ds) := by
   obtain ⟨Γ, hΓ, hdefs⟩ := rightSide_private_defs t fuel ΓR hsimp hR J ρ hpriv
   have hp : globalsPanic t.program = false := (theoryTranslate_ok t fuel t.program ΓR hR).1
   -- applicability facts from the checks
@@ -260,12 +261,37 @@ def definedInFirstProblem (t : ExternalTask) : List String :=
   | .ok (p :: _) => p.axioms.filterMap fun a => (headPredicate a.formula).map (·.symbol)
   | _ => []
 
-/-- **Counterexample 2 (known finding).** The right program's private `q/1` (renamed because the
-    left side has a private `q/1` too) and its own private `q_p/1` end up under one name: the
-    backward problem contains *two* completed definitions of `q_p` as axioms (`q_p(V) <-> V = 1`
-    and `q_p(V) <-> V = 2`), i.e. contradictory premises. -/
-theorem external_counterexample_rename :
-    (definedInFirstProblem renameClashTask).count "q_p" = 2 := by decide
+/-- **Repaired defect (rename clash).** The right program's private `q/1` (renamed because the left
+    side has a private `q/1` too) and its own private `q_p/1` used to end up under one name: the
+    backward problem contained *two* completed definitions of `q_p` as axioms (`q_p(V) <-> V = 1` and
+    `q_p(V) <-> V = 2`), contradictory premises. Now `q/1` is renamed to the free name `q_p1/1`. -/
+theorem rename_clash_now_separated :
+    (definedInFirstProblem renameClashTask).count "q_p" = 1 ∧
+    (definedInFirstProblem renameClashTask).count "q_p1" = 1 := by decide
+
+/-- **The names chosen for clashing private predicates are free**: none is a predicate of the task
+    (public or private on either side), no two renamed predicates share a name, and exactly the
+    private predicates common to both sides are renamed. -/
+theorem private_renaming_fresh (t : ExternalTask) :
+    (∀ x ∈ t.clashMap, renamedPred x.1 x.2 ∉ t.occupied) ∧
+    (t.clashMap.Pairwise fun x y => renamedPred x.1 x.2 ≠ renamedPred y.1 y.2) ∧
+    t.clashMap.map (·.1) = t.specPrivate.filter (· ∈ t.progPrivate) :=
+  ⟨clashMap_fresh t, clashMap_injective t, clashMap_keys t⟩
+
+/-- **One interpretation carries both readings**: extents `TL` for the specification side and `TR`
+    for the program side that agree on the public predicates are both read off one family `T` of
+    extents - `T` itself on the specification side's vocabulary, `T` through the renaming
+    (`renamedInterp`, the reading used in `ProducesR`) on the program side's. So the refutation
+    conditions of `external_refutes_programs` really speak about independent private extents of the two
+    sides. -/
+theorem one_interpretation_carries_both_readings (t : ExternalTask) (TL TR : PredI)
+    (hagree : ∀ (q : String) (a : List Dom), (⟨q, a.length⟩ : Pred) ∈ t.userGuide.publicPreds → (TL q a ↔ TR q a)) :
+    ∃ T : PredI,
+      (∀ (q : String) (a : List Dom), (⟨q, a.length⟩ : Pred) ∈ ext t.userGuide.publicPreds t.specPrivate →
+        (T q a ↔ TL q a)) ∧
+      (∀ (q : String) (a : List Dom), (⟨q, a.length⟩ : Pred) ∈ ext t.userGuide.publicPreds t.progPrivate →
+        (renamedInterp t.clashMap T q a ↔ TR q a)) :=
+  joint_reading t TL TR hagree
 
 /-- Whatever the decomposition, the problems of the final family of a direction are refuted by the
     interpretations that satisfy all premises and falsify some conclusion (C19 applied to the
